@@ -23,16 +23,7 @@ contract("mol_gen.MolGen.weight", is_property=True, props=["C05", "C13"],
          ensures=["result == mass(self._mol)"], labels={"result == mass(self._mol)": "current-heavy-atom-mass"},
          modifies=[], allocates=False)
 
-# ---- one draw of a target mass (sampling itself is trusted: scipy / numpy) -------------------------------------------------
-for _cls in ("Distribution", "FlorySchulz", "SchulzZimm", "LogNormal"):
-    contract(f"distribution.{_cls}.draw_mw", trusted=True,
-             why_trusted="calls scipy's rvs with random_state=rng: returns a sample of the law it is handed, using only the supplied generator (scipy / numpy, trusted); "
-                         "which parameters are handed over is checked by the bounded layer (C09 / C11)",
-             props=["C07", "C09"],
-             params=dict(self=Ref(_cls), rng=GENERATOR), returns=REAL, defaults={"rng": None},
-             ensures=["draws == old(draws) + 1 and last_draw == result and last_draw_rng == rng"],
-             raises_may={"RuntimeError": "True", "NotImplementedError": "True"},
-             modifies=["ghost.draws", "ghost.last_draw", "ghost.last_draw_rng"], allocates=False)
+# ---- one draw of a target mass: contracts/distribution.py (verified; scipy's sampler itself is trusted) ---------------------------------
 
 _GROW_FRAME = ("unchanged_except('MolGen._mol', my_mol) and unchanged_except('MolGen.graph', my_mol) and unchanged_except('MolGen.bond_descriptors', my_mol) "
                "and lists_unchanged_except(old(my_mol.bond_descriptors)) and unchanged_except('NxGraph.val', old(my_mol.graph))")
@@ -72,6 +63,7 @@ contract("stochastic.Stochastic.generate.finalize_mol",
 # molecule right after step q (set by add_repeat_unit).  W0 = mass of the incoming molecule, T = the one drawn target.
 _C07 = {
     "draws == old(draws) + 1 and last_draw_rng == rng": "exactly-one-draw-from-the-supplied-generator",
+    "last_draw_family == doc_family(self.distribution) and last_draw_p1 == doc_p1(self.distribution) and last_draw_p2 == doc_p2(self.distribution)": "target-drawn-from-the-declared-law-with-the-declared-parameters",
     "units >= old(units) + 1": "at-least-one-unit",
     "forall(lambda q: implies(old(units) < q and q < units, mass_after[q] - old(mass(my_mol._mol)) <= last_draw and open_after[q] > 0))": "continues-while-not-exceeding",
     "mass_after[units] - old(mass(my_mol._mol)) > last_draw or open_after[units] == 0": "stops-at-first-exceeding-or-no-open-descriptor",
@@ -79,16 +71,17 @@ _C07 = {
     "mass(entry(my_mol)._mol) == mass_after[units]": "growing-molecule-not-capped",
 }
 contract("stochastic.Stochastic.generate.generate_repeat_units_and_finalize",
-         props=["C07"],
+         props=["C07", "C09"],
          params=dict(my_mol=Ref("MolGen")), captured=dict(self=Ref("Stochastic"), rng=GENERATOR,
                                                           finalize_mol=("func", "stochastic.Stochastic.generate.finalize_mol")),
          returns=Ref("MolGen"),
-         requires=["molgen_wf(my_mol)", "not is_none(self.distribution)"],
+         requires=["molgen_wf(my_mol)", "not is_none(self.distribution)", "dist_inv(self.distribution)"],
          ensures=list(_C07), labels=_C07,
+         clause_props={"target-drawn-from-the-declared-law-with-the-declared-parameters": ["C09", "C07"], "cover": ["C07", "C09"]},
          raises_may={"RuntimeError": "True", "ValueError": "True", "NotImplementedError": "True", "Exception": "True"},
          modifies=["MolGen._mol", "MolGen.graph", "list", "NxGraph.val", "EditableMol.val", "MolGen.bond_descriptors",
                    "ghost.units", "ghost.mass_after", "ghost.open_after", "ghost.bonds", "ghost.bond_a", "ghost.bond_b", "ghost.bond_t",
-                   "ghost.draws", "ghost.last_draw", "ghost.last_draw_rng",
+                   "ghost.draws", "ghost.last_draw", "ghost.last_draw_rng", "ghost.last_draw_family", "ghost.last_draw_p1", "ghost.last_draw_p2",
                    "ghost.choices", "ghost.last_p", "ghost.last_n", "ghost.last_pick", "ghost.last_rng", "ghost.last_cand", "ghost.last_norm"],
          loops={1: dict(
              anchor="True",
@@ -98,6 +91,7 @@ contract("stochastic.Stochastic.generate.generate_repeat_units_and_finalize",
              locals={"finalized_my_mol": Ref("MolGen")},
              inv=["my_mol is entry(my_mol) and molgen_wf(my_mol)",
                   "draws == old(draws) + 1 and last_draw == target_mol_weight and last_draw_rng == rng",
+                  "last_draw_family == doc_family(self.distribution) and last_draw_p1 == doc_p1(self.distribution) and last_draw_p2 == doc_p2(self.distribution)",
                   "starting_mol_weight == old(mass(my_mol._mol))",
                   "units >= old(units)",
                   "forall(lambda q: implies(old(units) < q and q <= units, mass_after[q] - starting_mol_weight <= target_mol_weight and open_after[q] > 0))",
